@@ -231,11 +231,23 @@ Definition kstep_inline_promoted (s : schema) (a : action) (rest : list action) 
   | _ => false
   end.
 
-(* K14: RenameColumn and foreign-key ref_columns: apply.rs:310-353 renames inside ref_columns of the table's OWN
+(* K15: a primary key / unique constraint is removed (typically to be re-added with another auto_increment flag or
+   column list) while a foreign key references the table: PostgreSQL refuses to drop the index the key depends on *)
+Definition kstep_key_replaced_under_fk (s : schema) (a : action) (rest : list action) : bool :=
+  match a with
+  | RemoveConstraint t (CPrimaryKey _ _) | RemoveConstraint t (CUnique _ _) =>
+      existsb (fun x => existsb (fk_to t (fun _ => true)) (t_constraints x)) s
+  | _ => false
+  end.
+
+(* K14: RenameTable / RenameColumn and foreign keys: apply.rs:310-353 renames inside ref_columns of the table's OWN
    foreign keys (which name columns of another table) and never touches the foreign keys of other tables that
    reference the renamed column *)
-Definition kstep_rename_column_fk_refs (s : schema) (a : action) (rest : list action) : bool :=
+Definition kstep_rename_fk_refs (s : schema) (a : action) (rest : list action) : bool :=
   match a with
+  | RenameTable from _ =>
+      (* apply.rs:227-229 renames the table only; foreign keys of other tables keep ref_table = old name *)
+      existsb (fun x => existsb (fk_to from (fun _ => true)) (t_constraints x)) s
   | RenameColumn t from _ =>
       (existsb (fun k => match k with
                          | CForeignKey _ _ rt rcols _ _ => (negb (String.eqb rt t) && mem_str from rcols)%bool
@@ -246,7 +258,8 @@ Definition kstep_rename_column_fk_refs (s : schema) (a : action) (rest : list ac
   end.
 
 (* ---------- attribution of a failing case to the classes ----------
-   A class explains an engine error only if (a) one of its steps occurs at or before the failing action and
+   A class whose baseline condition holds explains everything (the migration starts from a catalog PostgreSQL
+   cannot be in).  Otherwise a class explains an engine error only if (a) one of its steps occurs at or before the failing action and
    (b) the violated rule is one the class can cause; it explains a catalog difference item only if the kind of
    item is one the class can cause.  A case is attributed to known findings only if its error is explained, or
    EVERY difference item is explained, by a class that fires on it. *)
@@ -282,12 +295,24 @@ Definition dkind_eqb (a b : dkind) : bool :=
   | _, _ => false
   end.
 
+(* the baseline holds a foreign key whose target table or column does not exist (left by an earlier rename) *)
+Definition kbase_dangling_fk (s : schema) : bool :=
+  existsb (fun t => existsb (fun k => match k with
+                                      | CForeignKey _ _ rt rcols _ _ =>
+                                          match table_named rt s with
+                                          | None => true
+                                          | Some r => negb (forallb (fun c => has_column c r) rcols)
+                                          end
+                                      | _ => false
+                                      end) (t_constraints t)) s.
+
 (* the baseline itself already holds two constraints of one table with the same derived name (K11 happened in an
    earlier migration, or the constraint is declared twice): catalog_of (baseline) is then not a catalog PostgreSQL
    can be in, and every later migration of that history is judged from an impossible start *)
 Definition table_names_clash (t : table_def) : bool :=
-  let ks := first_pk_only false (t_constraints t) in
-  (negb (nodup_str (index_names (t_name t) ks ++ (if existsb is_pk ks then [t_name t +++ "_pkey"] else [])))
+  let ks := t_constraints t in
+  (Nat.leb 2 (List.length (filter is_pk ks)) ||
+   negb (nodup_str (index_names (t_name t) ks ++ (if existsb is_pk ks then [t_name t +++ "_pkey"] else [])))
    || negb (nodup_str (fk_names (t_name t) ks
                        ++ flat_map (fun k => match k with CCheck n _ => [n] | _ => [] end) ks
                        ++ (if existsb is_pk ks then [t_name t +++ "_pkey"] else []))))%bool.
@@ -313,7 +338,7 @@ Definition classes : list kclass :=
             (fun s a r => (kstep_composite_member s a r || kstep_member_then_remove s a r)%bool)
             [6; 7] (DkColNotnull :: index_con_diffs)
   ; mkClass "known_C03_rename_table_names" no_base kstep_rename_table_names [6; 7; 9; 2; 1; 8]
-            (DkColType :: DkMissingType :: DkExtraType :: index_con_diffs)
+            (DkColType :: DkMissingType :: DkExtraType :: DkTypeLabels :: index_con_diffs)
   ; mkClass "known_C03_rename_column_names" no_base kstep_rename_column_names [6; 7; 1; 8] index_con_diffs
   ; mkClass "known_C03_enum_left_by_drop_table" no_base kstep_enum_left_by_drop_table [2] [DkExtraType]
   ; mkClass "known_C03_enum_case_fold" no_base kstep_enum_case_fold [9] [DkColType]
@@ -321,7 +346,8 @@ Definition classes : list kclass :=
   ; mkClass "known_C03_duplicate_name" kbase_duplicate_name kstep_duplicate_name [1; 8; 6; 7] index_con_diffs
   ; mkClass "known_C03_autoinc_by_alter" no_base kstep_autoinc_by_alter [] [DkColAuto]
   ; mkClass "known_C03_inline_promoted" no_base kstep_inline_promoted [1; 8] index_con_diffs
-  ; mkClass "known_C03_rename_column_fk_refs" no_base kstep_rename_column_fk_refs [] [DkConDiffers] ].
+  ; mkClass "known_C03_rename_fk_refs" kbase_dangling_fk kstep_rename_fk_refs [] [DkConDiffers]
+  ; mkClass "known_C03_key_replaced_under_fk" no_base kstep_key_replaced_under_fk [11] [] ].
 Definition class_names : list string := map kc_name classes.
 
 Definition mem_nat (n : nat) (l : list nat) : bool := existsb (Nat.eqb n) l.
@@ -331,15 +357,16 @@ Definition mem_dkind (d : dkind) (l : list dkind) : bool := existsb (dkind_eqb d
 Definition attribute (k : pg_case) (o : outcome) : list bool * bool :=
   match o with
   | OEngineError ai _ e =>
-      let bits := map (fun c => (mem_nat (error_code e) (kc_errors c)
-                                 && (kc_base c (g_baseline k)
-                                     || exists_step_upto (S ai) (kc_step c) (g_baseline k) (g_actions k)))%bool) classes in
+      let bits := map (fun c => (kc_base c (g_baseline k)
+                                 || (mem_nat (error_code e) (kc_errors c)
+                                     && exists_step_upto (S ai) (kc_step c) (g_baseline k) (g_actions k)))%bool) classes in
       (bits, existsb (fun b => b) bits)
   | ODiff d =>
-      let fires (c : kclass) := (kc_base c (g_baseline k) || exists_step (kc_step c) (g_baseline k) (g_actions k))%bool in
-      let firing := filter fires classes in
-      let bits := map (fun c => (fires c && existsb (fun x => mem_dkind (dkind_of x) (kc_diffs c)) d)%bool) classes in
-      (bits, forallb (fun x => existsb (fun c => mem_dkind (dkind_of x) (kc_diffs c)) firing) d)
+      let explains (c : kclass) (x : diff_item) :=
+        (kc_base c (g_baseline k)
+         || (exists_step (kc_step c) (g_baseline k) (g_actions k) && mem_dkind (dkind_of x) (kc_diffs c)))%bool in
+      let bits := map (fun c => existsb (explains c) d) classes in
+      (bits, forallb (fun x => existsb (fun c => explains c x) classes) d)
   | _ => (map (fun _ => false) classes, false)
   end.
 
@@ -361,7 +388,8 @@ Definition known_C03_enum_vs_row_type := known_by "known_C03_enum_vs_row_type".
 Definition known_C03_duplicate_name := known_by "known_C03_duplicate_name".
 Definition known_C03_autoinc_by_alter := known_by "known_C03_autoinc_by_alter".
 Definition known_C03_inline_promoted := known_by "known_C03_inline_promoted".
-Definition known_C03_rename_column_fk_refs := known_by "known_C03_rename_column_fk_refs".
+Definition known_C03_rename_fk_refs := known_by "known_C03_rename_fk_refs".
+Definition known_C03_key_replaced_under_fk := known_by "known_C03_key_replaced_under_fk".
 
 (* rows for the driver: every case that is not OOk, with its attribution *)
 Fixpoint report_from (i : nat) (cs : list pg_case)
